@@ -40,6 +40,22 @@ EXTRA_SMILES = [
     '[O-]P(=O)([O-])OCC[NH3+]', 'NC(CC(=O)C)C(=O)O', 'OC(=O)CC(=O)CCN', 'CC(=O)CC(C)NCC(O)=O', 'Cc1ccccc1C', 'Cc1ccc2ccccc2c1',
     'C1=CC=CC=CC=C1', 'c1ccc2[nH]ccc2c1', 'C[C@@](F)(Cl)Br', 'F[C@H](Cl)[C@@H](Br)[C@H](F)Cl', 'CC(C)(C)c1ccccc1', 'C.C.C', 'CCN.CCO',
 ]
+# always part of every run, whatever the seed: one or more molecules per feature class a nondeterminism bug could need
+CORE_SMILES = [
+    '[2H]C(Cl)(F)Br', '[13CH3]C(=O)O', 'CC([18OH])=O', '[2H]c1ccccc1', '[14CH3][C@H](N)C(O)=O',            # isotopes
+    'CC(=O)[O-].[Na+]', '[O-][N+](=O)c1ccccc1', 'CS(=O)(=O)[O-]', '[O-]c1ccccc1', '[NH3+]CC([O-])=O',        # anions / zwitter-ions
+    '[CH3]', 'C[CH]C', 'C[O]', '[O][O]',                                                                      # radicals
+    'O[C@H]([C@@H](O)C(O)=O)C(O)=O', 'O[C@@H]([C@@H](O)C(O)=O)C(O)=O', 'C/C=C/C=C\\C', 'C/C=C/C=C/C',      # meso / E,Z pairs
+    'C[C@H]1CC[C@@H](C)CC1', 'C[C@H]1C[C@@H](C)C1', 'O[C@H]1[C@H](O)[C@@H](O)[C@H](O)[C@@H](O)[C@@H]1O',   # ring stereo groups
+    'CC=[C@]=CC', 'CC(C)=[C@@]=C(C)Cl',                                                                       # allenes
+    'C1CC2CC1C2', 'C1CC2CCC1C2', 'C1C2CC3CC1CC(C2)C3', 'C12C3C4C1C5C2C3C45',                                  # equal-size ring ties, cages
+    'c1ccc2ccccc2c1', 'Cc1ccccc1C', 'c1ccc2[nH]ccc2c1', 'OC(=O)c1ccccc1O',                                     # several Kekule forms
+    '[NH3+]CCCCC([NH3+])C(=O)[O-]', '[O-]C(=O)CC(C(=O)[O-])[NH3+]', '[NH3+]CC[NH2+]CC([O-])=O',               # unbalanced multi-site ions
+    'NC(CC(=O)C)C(=O)O', 'OC(=O)CC(=O)CCN', 'CC(=O)CC(C)=O', 'Oc1ccccn1',                                      # tautomers
+    'C.C.C', 'CCO.CCO.CCN', '[Na+].[Na+].[O-]S([O-])(=O)=O',                                                   # identical / many components
+    'Cl[Pt](Cl)(N)N', 'C[Mg]Br', 'N[Cu]N',                                                                     # metals
+    'CN(C)(C)=O', 'CN(=O)=O', 'C[S+](C)[O-]', 'CN=[N+]=[N-]', 'C=[N+]=[N-]',                                   # standardisation groups
+]
 FILES = ['isomorphism.sdf', 'mcs.sdf', 'standardize.sdf', 'arenes.sdf', 'hbonds.sdf', 'depict.sdf', 'implicit.sdf',
          'morgan_ruiner.sdf', 'stereo.sdf', 'MR.rdf', 'ions.rdf', 'standardize.rdf', 'implicit.mrv', 'cycle.sdf']
 RXN_OBS = ['rxn_str', 'rxn_fmt_m', 'rxn_fmt_h', 'rxn_cgr', 'rxn_cgr_order', 'rxn_centers', 'rxn_canonicalize', 'rxn_standardize',
@@ -59,6 +75,7 @@ def full_corpus():
         with open(os.path.join(env.REPO, 'pach', 'lipophilicity.csv')) as f:
             for row in csv.DictReader(f):
                 out.append(['smi', row['smiles']])
+        out += [['smi', s] for s in CORE_SMILES]
         out += [['smi', s] for s in EXTRA_SMILES]
         for f, n in (('isomorphism.sdf', 8), ('mcs.sdf', 8), ('standardize.sdf', 40), ('arenes.sdf', 40), ('hbonds.sdf', 1),
                      ('depict.sdf', 1), ('implicit.sdf', 2), ('morgan_ruiner.sdf', 1), ('stereo.sdf', 60), ('MR.rdf', 4),
@@ -248,7 +265,7 @@ def replay_file(path, scratch):
     return None, t
 
 
-TIERS = {'quick': {'mols': 110, 'execs': 16}, 'thorough': {'mols': 4300, 'execs': 48, 'slice': 270}}
+TIERS = {'quick': {'mols': 140, 'execs': 16}, 'thorough': {'mols': 4300, 'execs': 48, 'slice': 270}}
 
 
 def main(argv):
@@ -291,10 +308,13 @@ def _main(a, scratch):
     idx = list(range(len(corpus_all)))
     crng.shuffle(idx)
     # always include the hand-picked symmetric / stereo / bridged molecules, fill the rest from the shuffled corpus
-    special = [k for k, c in enumerate(corpus_all) if c[0] != 'smi' or c[1] in EXTRA_SMILES]
+    special = [k for k, c in enumerate(corpus_all) if c[0] != 'smi' or c[1] in EXTRA_SMILES or c[1] in CORE_SMILES]
     crng.shuffle(special)
     n = min(T['mols'], len(corpus_all))
-    chosen = (special[:n // 3] + [k for k in idx if k not in set(special[:n // 3])])[:n]
+    core_idx = [k for k, c in enumerate(corpus_all) if c[0] == 'smi' and c[1] in CORE_SMILES] + \
+               [k for k, c in enumerate(corpus_all) if c[0] in ('rxnsmi',)][:6]
+    first = core_idx + [k for k in special[:n // 4] if k not in set(core_idx)]
+    chosen = (first + [k for k in idx if k not in set(first)])[:max(n, len(core_idx) + 40)]
     slice_n = T.get('slice', n)
     slices = [chosen[k:k + slice_n] for k in range(0, len(chosen), slice_n)]
 
